@@ -140,6 +140,10 @@ pub struct KnownFinding {
     pub repro: Option<J>,
     #[serde(default)]
     pub commit: Option<String>,
+    /// name of the trigger class the generator excludes by construction while this
+    /// finding is open
+    #[serde(default)]
+    pub excludes: Option<String>,
 }
 
 #[derive(Debug, Clone, Serialize, Deserialize)]
@@ -201,6 +205,8 @@ pub struct RunCtx {
     assumptions: Vec<String>,
     start: Instant,
     strict: bool,
+    /// proptest shrink budget for the following sections (expensive cases lower it)
+    pub shrink_iters: u32,
 }
 
 static DIR_COUNTER: AtomicU64 = AtomicU64::new(0);
@@ -293,6 +299,7 @@ impl RunCtx {
         let verif_root = std::env::var("NVCHECK_ROOT")
             .map(PathBuf::from)
             .unwrap_or_else(|_| PathBuf::from(concat!(env!("CARGO_MANIFEST_DIR"), "/..")));
+        let verif_root = std::fs::canonicalize(&verif_root).unwrap_or(verif_root);
         let base = if Path::new("/dev/shm").is_dir() {
             PathBuf::from("/dev/shm")
         } else {
@@ -325,6 +332,7 @@ impl RunCtx {
             assumptions: Vec::new(),
             start: Instant::now(),
             strict: std::env::var("NVCHECK_STRICT").is_ok(),
+            shrink_iters: 4000,
         }
     }
 
@@ -350,6 +358,11 @@ impl RunCtx {
                 .known
                 .iter()
                 .any(|k| k.status == "open" && sig_matches(&k.signature, sig))
+    }
+
+    /// Is the trigger class `name` excluded by construction (an open finding names it)?
+    pub fn excluding(&self, name: &str) -> bool {
+        !self.strict && self.known.iter().any(|k| k.status == "open" && k.excludes.as_deref() == Some(name))
     }
 
     pub fn has_open(&self, sig_prefix: &str) -> bool {
@@ -555,7 +568,7 @@ impl RunCtx {
                             let cfg = Config {
                                 cases: n as u32,
                                 failure_persistence: None,
-                                max_shrink_iters: 4000,
+                                max_shrink_iters: this.shrink_iters,
                                 max_shrink_time: 120_000,
                                 max_global_rejects: 1_000_000,
                                 ..Config::default()
